@@ -30,6 +30,18 @@ func c13Gen(r *rand.Rand, tier string) any {
 				sc.Ops = append(sc.Ops, *op)
 			}
 		}
+		if r.IntN(5) == 0 {
+			// a generated file that another target uses as a source is modified in place
+			var gens []string
+			for ti := range shadow.Targets {
+				if len(shadow.Targets[ti].Generates) > 0 {
+					gens = append(gens, shadow.Targets[ti].label())
+				}
+			}
+			if len(gens) > 0 {
+				sc.Ops = append(sc.Ops, opSpec{Op: "scribble-generated", Label: gens[r.IntN(len(gens))], N: r.IntN(2)})
+			}
+		}
 		label := pickLabel(r, shadow)
 		always := r.IntN(8) == 0
 		broken := ""
